@@ -79,7 +79,7 @@ def main():
             finds = [l[:300] for l in out.splitlines() if l.startswith('FINDING')]
             results[p] = {'exit': rc, 'findings': finds[:6]}
     finally:
-        sh('git -C /repo checkout -- .')
+        sh('git -C /repo checkout -- . && git -C /repo clean -fdq -- src')
     meta['checks'] = results
     meta['detected_by'] = [p for p, r in results.items() if r['exit'] == 1]
     meta['broken_checks'] = [p for p, r in results.items() if r['exit'] not in (0, 1)]
